@@ -18,6 +18,17 @@ Q_Delays == {-27, -20, -9, -4, -1, 0, 1, 4, 10, 20, 23}
 Q_IDelays == {-6, -2, -1, 0, 1, 3, 6}
 Q_SnipT == {-4, 0, 1, 4, 6, 8, 16, 20, 21}
 Q_SnipN == {-1, 0, 1, 2, 5}
+\* frequency-axis instances (C02): more channels, nested channel selections
+FreqOps == {"freq_slice", "tf_slice", "stokes_item", "to_intensity", "to_stokes", "time_slice"}
+RadioClasses == AllClasses \ {"Signal"}
+QF_NChans == {1, 2, 3, 4, 6}
+QF_FBounds == {-5, -2, -1, 0, 1, 3, 6}
+QF_XBounds == {1}
+QF_TBounds == {-1, 2}
+QF_TSteps == {2}
+QF_RootLens == {3}
+FF_NChans == 1..8
+FF_FBounds == -9..9
 \* full instance
 F_RootLens == {0, 1, 2, 3, 5, 8, 11}
 F_NChans == {1, 2, 3, 4, 5, 6}
